@@ -154,11 +154,18 @@ def run(ctx):
             elif bi % 8 == 6:
                 # the signature file is produced by the command line itself (`signatures create --db-params`): ids = file labels
                 sf = os.path.join(tmp, f'b{bi}.gs')
-                rc0, _, se0 = cli.run_cli(['-d', dbdir, 'signatures', 'create', '--db-params', '--no-progress', '-o', sf] + [files[i][1] for i in batch], cwd=tmp)
+                with_ids = bi % 16 == 14
+                extra_args = []
+                if with_ids:
+                    # ids given in a file (one per line, rendered like a list file), inputs through a list file as well
+                    custom = [f'custom id {j}, "ü" #{bi}' for j in range(len(batch))]
+                    idf = cli.write_listfile(os.path.join(tmp, f'ids{bi}.txt'), custom, dict(eol=['lf', 'crlf'][(bi // 16) % 2], final=(bi // 32) % 2 == 0, blanks=False, pad=(bi // 16) % 3 == 1))   # (blank lines would count as ids)
+                    extra_args = ['-i', idf]
+                rc0, _, se0 = cli.run_cli(['-d', dbdir, 'signatures', 'create', '--db-params', '--no-progress', '-o', sf] + extra_args + [files[i][1] for i in batch], cwd=tmp)
                 if rc0 != 0:
                     raise tlc.MachineryError(f'signatures create failed while preparing a batch: {se0[-300:]}')
                 args += ['-s', sf]
-                labels = [dict(kind='path', v=cps(files[i][1])) for i in batch]
+                labels = [dict(kind='id', v=cps(c)) for c in custom] if with_ids else [dict(kind='path', v=cps(files[i][1])) for i in batch]
                 channel = 'sigfile-from-cli'
             else:
                 sf = os.path.join(tmp, f'b{bi}.gs')
